@@ -98,6 +98,13 @@ Inductive diverges : list part -> list part -> Prop :=
 | div_here p q ps qs : apart p q -> diverges (p :: ps) (q :: qs)
 | div_later p ps qs : diverges ps qs -> diverges (p :: ps) (p :: qs).
 
+(* the same, but q may also agree with the whole of ps and then continue with a rest accepted by [ok_end]
+   (used for writes whose continuation itself only touches part of the node at ps, e.g. one field) *)
+Inductive diverges_end (ok_end : list part -> Prop) : list part -> list part -> Prop :=
+| dve_end qs : ok_end qs -> diverges_end ok_end [] qs
+| dve_here p q ps qs : apart p q -> diverges_end ok_end (p :: ps) (q :: qs)
+| dve_later p ps qs : diverges_end ok_end ps qs -> diverges_end ok_end (p :: ps) (p :: qs).
+
 (* q never reads the key field of a selector it has just passed ([nm=v] followed by nm): that field is
    the one thing a write *creates* outside its own path when it has to append the element [nm=v] *)
 Fixpoint no_sel_key_read (qs : list part) : Prop :=
